@@ -1,2 +1,3 @@
 import Drive.Util
 import Drive.Timer
+import Drive.Interp
